@@ -317,7 +317,7 @@ func runCheck(cfg checkCfg) int {
 					path := writeReplay(cfg.prop, o, res)
 					suffix := " no-failing-input-found"
 					if res.Status == "failed" && len(res.Model) > 0 {
-						if ok := tryReplay(cfg, o, res, path); ok {
+						if ok := tryReplay(cfg, o, res, path) || autoReplay(r.vc, o, res, path); ok {
 							suffix = ""
 						}
 					}
